@@ -184,8 +184,58 @@ def _case(draw):
     return {'top': top, 'stages': stages, 'perm': perm_seed, 'shared_ctx': draw(st.booleans()), 'weak_base': weak_base}
 
 
+@st.composite
+def _shared_retarget_case(draw):
+    # one !call node standing at two places (yaml alias) - the place of the anchor and an argument of another call, an entry of a
+    # mapping or an element of a list - and a later document that merges a function node with ANOTHER target onto one of the places
+    return {'shared_retarget': {'holder': draw(st.sampled_from(['call', 'map', 'seq'])), 'at': draw(st.sampled_from(['anchor', 'anchor', 'alias'])),
+                                'old_args': draw(st.sampled_from([[], [['w', 1]], [['w', 1], ['v', 2]]])),
+                                'new_args': draw(st.sampled_from([[], [['a', 5]], [['w', 7]]])),
+                                'order': draw(st.sampled_from(['anchor-first', 'holder-first'])),
+                                'extra_stage': draw(st.booleans())}}
+
+
 def strategy():
-    return _case()
+    return st.integers(0, 24).flatmap(lambda i: _shared_retarget_case() if i == 0 else _case())
+
+
+def _run_shared_retarget(case):
+    c = case['shared_retarget']
+    old = tdoc.mp([(k, tdoc.sc(v)) for k, v in c['old_args']], flow=True, tag='!call:vfrec.call_1', anchor='x')
+    al = {'t': 'alias', 'name': 'x'}
+    holder = {'call': tdoc.mp([('z', al)], flow=True, tag='!call:vfrec.call_2'), 'map': tdoc.mp([('z', al)], flow=True), 'seq': tdoc.sq([al], flow=True)}[c['holder']]
+    # (the anchor has to come first in the text)
+    doc0 = tdoc.mp([('g', old), ('n', holder)])
+    new = tdoc.mp([(k, tdoc.sc(v)) for k, v in c['new_args']], flow=True, tag='!call:vfrec.call_3')
+    if c['at'] == 'anchor':
+        doc1 = tdoc.mp([('g', new)])
+    else:
+        doc1 = tdoc.mp([('n', tdoc.mp([('z' if c['holder'] != 'seq' else 0, new)], flow=True))])
+    docs = [doc0, doc1] + ([tdoc.mp([('other', tdoc.sc(1))])] if c['extra_stage'] else [])
+    texts = [tdoc.render(d) for d in docs]
+    src = '\nsources:\n' + '\n'.join(texts)
+    vfrec.reset()
+    status, cfg = O.try_call(O.build_config, texts)
+    log = [e for e in vfrec.LOG if e[0] == 'call']
+    labels = ['shared-node-given-another-target', 'at=' + c['at'], 'holder=' + c['holder']]
+    if status != 'ok':
+        raise Violation(f'C10: build failed: {type(cfg).__name__}: {cfg}{src}')
+    ids = [e[1] for e in log]
+    dup = sorted({i for i in ids if ids.count(i) > 1})
+    if dup:
+        raise Violation(f'C10: the call(s) {dup} ran more than once: {[(e[1], e[3]) for e in log]} - one !call node standing at two places is one node, '
+                        f'and the node written by the later document is one node{src}')
+    written = {1: dict(c['old_args']), 3: dict(c['new_args'])}
+    for e in log:
+        if e[1] in written and dict(e[3]) != written[e[1]] and not (e[1] == 3 and c['new_args'] == [] ):
+            raise Violation(f'C10: call {e[1]} ran with the arguments {dict(e[3])!r}, which no document has written for it ({written[e[1]]!r}){src}')
+    got = O.to_builtin(cfg)
+    g = got['g']
+    z = got['n']['z'] if c['holder'] == 'map' else got['n'][0] if c['holder'] == 'seq' else got['n']['kw']['z']
+    for where, v in (('g', g), ('n.z', z)):
+        if not (isinstance(v, dict) and v.get('called') in (1, 3) and v.get('kw') == written[v['called']]):
+            raise Violation(f'C10: {where} is {v!r}: neither the call the first document wrote nor the one the later document wrote{src}')
+    return Outcome(nontrivial=True, labels=labels)
 
 
 def pstr(path):
@@ -446,6 +496,8 @@ def _run(texts, ctx=None):
 
 
 def run_case(case):
+    if 'shared_retarget' in case:
+        return _run_shared_retarget(case)
     base = tdoc.mp([(k, node_of(spec)) for k, spec in case['top']])
     if case.get('weak_base'):
         base['prio'] = -1
@@ -584,4 +636,6 @@ def run_case(case):
 
 
 def sample_repr(case):
+    if 'shared_retarget' in case:
+        return case['shared_retarget']
     return [tdoc.render(tdoc.mp([(k, node_of(spec)) for k, spec in case['top']]))] + [tdoc.render(stage_doc(a, merge_entry(case)[0])) for a in case['stages'] if a]
